@@ -1,6 +1,6 @@
 (** Correspondence check for C13 (redirect routes). *)
 From Coq Require Import String List NArith ZArith Bool.
-From Fabio Require Import Lib.Outcome Lib.Bytes Lib.Verdict Model.Redirect Model.RedirectSpec.
+From Fabio Require Import Lib.Outcome Lib.Bytes Lib.Verdict Model.Redirect Model.RedirectSpec Model.RedirectTag.
 Import ListNotations.
 Local Open Scope N_scope.
 
@@ -54,7 +54,17 @@ Inductive case :=
    Table.lookup in visiting order, the response and the upstream hit count *)
 | CHistory (steps : list (request * str * list (option target) * response * nat))
 (* Target.BuildRedirectURL called repeatedly on ONE target object: RedirectURL.String() after each call *)
-| CBuildHistory (t : target) (steps : list (request * str)).
+| CBuildHistory (t : target) (steps : list (request * str))
+(* END TO END from consul tags: each service registers one urlprefix tag; the REAL
+   routecmd.build turns the tags into route commands, route.NewTable into a table,
+   HTTPProxy.ServeHTTP answers one request.  Per tag: its text, [gen] = the generator's own
+   view of a redirect tag (url.Parse of the template it wrote, the strip/prepend it wrote;
+   None for a tag without redirect option), [real] = the target the real table holds for that
+   service (None: nothing was registered).  [cands]: per matching host the index of the
+   service whose target Table.lookup yields.  The model side is computed from the TEXT of the
+   tag ([tag_target]), not from the route command. *)
+| CConsul (prefix : str) (tags : list (str * option target * option target)) (cands : list (option nat))
+          (wire : str) (q : request) (impl : response) (hits : nat).
 
 Fixpoint list_all2 {A B} (f : A -> B -> bool) (a : list A) (b : list B) : bool :=
   match a, b with
@@ -94,6 +104,29 @@ Definition response_spec (q : request) (wire : str) (cands : list (option target
   end.
 Definition first_region (l : list (option N)) : option N :=
   fold_right (fun o acc => match o with Some k => Some k | None => acc end) None l.
+
+Definition target_eqb (with_code : bool) (a b : target) : bool :=
+  Nat.eqb (t_id a) (t_id b) && beq (t_scheme a) (t_scheme b) && beq (t_host a) (t_host b) && beq (t_path a) (t_path b)
+  && beq (t_query a) (t_query b) && beq (t_strip a) (t_strip b) && beq (t_prepend a) (t_prepend b)
+  && (if with_code then (t_code a =? t_code b)%Z else true).
+(* per tag: the target the TEXT of the tag describes, and whether the generator's view and the
+   real table agree with it *)
+Fixpoint tag_models (i : nat) (prefix : str) (tags : list (str * option target * option target))
+  : list (option target * bool) :=
+  match tags with
+  | [] => []
+  | (tag, gen, real) :: r =>
+      (match gen with
+       | Some g =>
+           match tag_target i prefix tag with
+           | Some t => (Some t, target_eqb false t g && match real with Some x => target_eqb true t x | None => false end)
+           | None => (None, false)
+           end
+       | None => (Some (upstream_target i),
+                  negb (has_redirect_field prefix tag)
+                  && match real with Some x => (t_code x =? 0)%Z && Nat.eqb (t_id x) i | None => false end)
+       end) :: tag_models (S i) prefix r
+  end.
 
 Definition check_case (c : case) : N :=
   match c with
@@ -155,4 +188,19 @@ Definition check_case (c : case) : N :=
       let r6 := existsb (fun s => match s with (q, _) =>
                            negb (is_nil (q_rawpath q)) && strip_decoded_only t (q_rawpath q) q end) steps in
       verdict ok true (if r6 then Some 6 else None) (Nat.ltb 1 (length steps))
+  | CConsul prefix tags cands wire q impl hits =>
+      let ms := tag_models 0 prefix tags in
+      let mcands := map (fun o => match o with
+                                  | None => None
+                                  | Some i => match nth_error ms i with Some (ot, _) => ot | None => None end
+                                  end) cands in
+      let idx_ok := forallb (fun o => match o with None => true | Some i => Nat.ltb i (length ms) end) cands in
+      let m := handle q mcands in
+      let same := forallb snd ms && idx_ok && response_eqb impl m && Nat.eqb hits (upstream_calls m)
+                  && opt_pair_eqb (set_path wire) (Some (q_path q, q_rawpath q)) in
+      (* the response is judged against the reference loop and [expected_location] over the
+         targets read off the tag texts *)
+      let '(rs, region) := response_spec q wire mcands impl in
+      let spec := rs && Nat.eqb hits (match impl with RProxy _ => 1 | _ => 0 end) in
+      verdict same spec region (match m with RRedirect _ _ => true | _ => false end)
   end.
